@@ -96,4 +96,23 @@ def run (t0 : String) : List Op → List Resp
     | some resp => resp :: run (step t0 o).1 os
     | none => run (step t0 o).1 os
 
+/-! ## A reload that lands in the middle of a request
+
+`queryTokenChecker` reads the configured token **once** per request (`requiredToken := …` at the top
+of the closure) and uses that one value for both the "not configured" guard and the comparison.  A
+reload concurrent with the request therefore lands either before that read (`split = 0`: the request
+is answered against the new token) or after it (`split ≥ 1`: against the old one) — the request is
+always answered against ONE token that was in force. -/
+
+/-- `split` = number of token reads of the request that happen before the reload lands -/
+def respondUnderReload (split : Nat) (old new : String) (vals : List String) : Resp :=
+  respond (if split = 0 then new else old) vals
+
+/-- What a checker that read the token twice (guard, then comparison) would do when the reload lands
+between the two reads — not the code; kept to show which hazard the single read excludes. -/
+def respondTwoReads (atGuard atCompare : String) (vals : List String) : Resp :=
+  if atGuard == "" then .error errAuthNeededStatus (errJSON notConfiguredDetail)
+  else if headerGet vals == atCompare then .data
+  else .error errAuthNeededStatus (errJSON (badTokenDetail (headerGet vals)))
+
 end Refinery.Model.QueryAuth
